@@ -19,7 +19,7 @@ func init() {
 		Technique: "SSA hand-off pairing (must-dataflow of take/put operations per loop iteration), consumed-prefix and compaction invariants on loop-carried counters, field-copy completeness of the metadata carriers, store audit of the flit payload, delivery-port provenance",
 		Explanation: "Decides on the endpoint and switch data path (the code every mesh/PCIe/NVLink/generic network is built from): (hand-off) in every stage, each operation that removes an item from its source (Pop, RetrieveIncoming/Outgoing, pop-front, consumed-prefix count) has a matching operation that places it in the next queue (PushTyped, Accept, Send, Deliver, append, arrival count) on every path of the same iteration, and vice versa — so no flit or message is dropped or duplicated between stages; " +
 			"(prefix-drain) where a loop hands off elements X[i] and afterwards drops the first n, i and n advance together on every path to the next iteration; (compaction) an in-place compaction visits every element before truncating and every element not kept is handed to another queue; " +
-			"(metadata) the six metadata fields are copied field-for-field message→flit payload→assembly record→reassembled message, and no code outside the flit constructor stores into a flit's payload; (routing) a flit's route is looked up by the payload's destination and a missing route panics rather than dropping; (delivery) the device port a message is delivered to is one whose address compared equal to the message's destination. (stale-element) no pointer to an element of a noc State slice is used after that slice was compacted in place.",
+			"(metadata) the six metadata fields are copied field-for-field message→flit payload→assembly record→reassembled message, and no code outside the flit constructor stores into a flit's payload; (routing) a flit's route is looked up by the payload's destination and a missing route panics rather than dropping; (delivery) the device port a message is delivered to is one whose address compared equal to the message's destination. (stale-element) no pointer to an element of a noc State slice is used after that slice was compacted in place. (unique-names) a connector method that adds a switch under a name of its own choosing does not use a constant name.",
 		NotDecided:  "that routing tables built by the connectors reach every destination (mesh tables: C30), deadlock freedom/liveness, and timing.",
 		Assumptions: []string{"queueing.Buffer/Pipeline and messaging ports are FIFO and lossless (C11, C12, C19–C21 of this suite)"},
 	}, runC29)
@@ -426,6 +426,7 @@ func deliveryPortRule(c *Ctx) {
 }
 
 func runC29(c *Ctx) {
+	uniqueNamesRule(c, "unique-names")
 	handOffRule(c, nocDataPath, 20, 2, 1)
 	metaCopyRule(c)
 	routingRule(c)
